@@ -29,7 +29,7 @@ def gen_path(R):
     cur = start
     for _ in range(r.randint(2, 6)):
         k = r.choice(["move", "rapid", "moveabs", "rapidabs", "polyline", "arc", "circle", "helix", "spiral", "thread",
-                      "arc_radius", "spline", "ctx", "ctxraise", "parametric"])
+                      "arc_radius", "spline", "ctx", "ctxraise", "parametric", "ctxnest", "dwellctx"])
         if k in ("move", "rapid", "moveabs", "rapidabs"):
             t = tuple(fr(r) if r.random() < 0.7 else None for _ in range(3))
             if all(v is None for v in t):
@@ -65,6 +65,15 @@ def gen_path(R):
             p1 = (p0[0] + fr(r, 1, 6), p0[1] + fr(r, -6, 6), p0[2] + fr(r, -2, 2))
             segs.append((k, p1, p0))
             cur = p1
+        elif k == "ctxnest":
+            # a mode context holding a move, an absolute-bypass move (a nested absolute_mode()) and another move
+            t1, t2, t3 = ((fr(r), fr(r), fr(r)) for _ in range(3))
+            segs.append(("ctxnest", (t1, t2, t3), r.choice(["abs", "rel"])))
+            cur = t3
+        elif k == "dwellctx":
+            # a zero-length move, then a move to the absolute point whose coordinates equal that move's relative arguments
+            segs.append(("dwellctx", (Fraction(0), Fraction(0), None), None))
+            cur = (Fraction(0), Fraction(0), cur[2])
         elif k == "ctxraise":
             # a mode context whose body raises (a waypoint outside the axes box), caught by the caller, who carries on
             t = (fr(r), fr(r), fr(r))
@@ -131,6 +140,23 @@ def lines_for(path, relative: bool):
         elif k == "parametric":
             out.append("trace parametric " + ";".join(show(v) for v in extra) + " " + ";".join(show(v) for v in t))
             cur = list(t)
+        elif k == "ctxnest":
+            inner_rel = extra == "rel"
+            t1, t2, t3 = t
+            out.append("enter " + extra)
+            out.append("move " + pt(arg(t1, inner_rel)))
+            cur = list(t1)
+            out.append("moveabs " + pt(t2))
+            cur = list(t2)
+            out.append("move " + pt(arg(t3, inner_rel)))
+            cur = list(t3)
+            out.append("exit")
+        elif k == "dwellctx":
+            out.append("move " + pt(arg((cur[0], cur[1], None), relative)) + " F:600")     # stays where it is
+            out.append("enter abs")
+            out.append("move x=0 y=0")
+            out.append("exit")
+            cur = [Fraction(0), Fraction(0), cur[2]]
         elif k == "ctxraise":
             inner_rel = extra == "rel"
             out.append("enter " + extra)
